@@ -182,7 +182,7 @@ func (s *Solver) Check(assertions []*Term, want []*Term) (Result, map[*Term]inte
 			res = Unsat
 		case l == "unknown":
 			res = Unknown
-		case strings.HasPrefix(l, "(error"):
+		case strings.HasPrefix(l, "(error "):
 			serr = fmt.Errorf("solver error: %s", l)
 		}
 	}
@@ -213,7 +213,13 @@ func (s *Solver) Check(assertions []*Term, want []*Term) (Result, map[*Term]inte
 				return Unknown, nil, err
 			}
 			txt := strings.Join(lines, " ")
-			if strings.Contains(txt, "(error") {
+			isErr := false
+			for _, l := range lines {
+				if strings.HasPrefix(l, "(error ") {
+					isErr = true
+				}
+			}
+			if isErr {
 				s.send("(pop 1)")
 				s.sync()
 				return Unknown, nil, fmt.Errorf("solver error in get-value: %s", txt)
